@@ -12,6 +12,8 @@ import Proofs.NoInternal
 import Proofs.MarkupSuccess
 import Proofs.MarkSuccess
 import Proofs.UnifyText
+import Proofs.InsertAtValid
+import Proofs.HoleValid
 namespace PM.C01
 open PM
 
@@ -179,6 +181,215 @@ theorem apply_valid (S : Schema) (st : Step) (doc doc' : Node)
   | removeNodeMark pos m => exact removeNodeMark_valid S doc doc' pos m hd h
   | attr pos name value => exact attr_valid S doc doc' pos name value hd h
   | docAttr name value => exact docAttr_valid S doc doc' name value hd h
+
+/-! ### The payload condition of a replace-around step is a condition on its slice alone
+
+  `PayloadValid` asks, for a replace-around step, that the slice *with the gap content in place* is a valid payload —
+  a condition that mentions the document.  That was forced by a defect (finding C01-insert-inside-text): `insert_into`
+  tested `parent.can_replace(index, index, gap)` at the index of the child the insertion point falls in, but built
+  `text₁ ++ gap ++ text₂` when that child is a text node, so a step whose slice was valid could return an invalid
+  document.  The repair (`fix:` in /repo; model: `flatInsert`, PM/Replace.lean) validates the content that is built.
+  With it the quantifier of C01 — "slice payload itself schema-valid" — is all that is needed, for replace-around steps
+  too (`SliceValid`, `apply_valid'`). -/
+
+/-- "the step's payload is itself schema-valid", per step kind: for both replace kinds the **slice alone** is a valid
+    payload (`openValid`: every node valid, the nodes on the open sides up to their open end); for a replace-around step
+    with an open side the slice content is in normal form (no empty text node, no two adjacent text nodes with equal
+    marks — what `Fragment.from_array` / `from_json` build); mark steps: `TextStable` as in `PayloadValid`.
+    Nothing is asked of `insert`: `Slice.insert_at` refuses an insertion point outside the slice (second repair for
+    C01; `insert ≤ slice.size` stood here while a step with `insert > slice.size` could return a schema-invalid
+    document — `insertBeyond_refused`). -/
+def SliceValid (S : Schema) : Step → Prop
+  | .replace _ _ sl _ => openValid S sl.openStart sl.openEnd sl.content = true
+  | .replaceAround _ _ _ _ sl _ _ =>
+    openValid S sl.openStart sl.openEnd sl.content = true ∧
+      ((sl.openStart = 0 ∧ sl.openEnd = 0) ∨ fnorm sl.content = true)
+  | .addMark .. => TextStable S
+  | .removeMark .. => TextStable S
+  | _ => True
+
+/-- what `insert_at` returns for a valid slice and the content of a closed gap cut from a valid document is a valid
+    payload again: a complete node that receives the gap accepted the content that was built, a node on an open side is
+    validated by `replace` when the slice is placed -/
+theorem insertAt_payload (S : Schema) (doc : Node) (gf gt ins : Nat) (sl gap res : Slice) (hd : Valid S doc)
+    (hv : openValid S sl.openStart sl.openEnd sl.content = true)
+    (hshape : (sl.openStart = 0 ∧ sl.openEnd = 0) ∨ fnorm sl.content = true)
+    (hgap : doc.slice gf gt = .ok gap) (hgc : gap.openStart = 0 ∧ gap.openEnd = 0)
+    (hres : sl.insertAt S ins gap.content = .ok (some res)) :
+    openValid S res.openStart res.openEnd res.content = true := by
+  have hgv := slice_openValid S doc gf gt gap hd hgap
+  rw [hgc.1, hgc.2] at hgv
+  have hg : S.checkKids gap.content = true := by simpa [openValid, rightOpenValid] using hgv
+  rcases hshape with hcl | hn
+  · exact insertAt_closed_openValid S sl res ins gap.content hg hcl.1 hcl.2 hv hres
+  · exact insertAt_openValid S sl res ins gap.content hg hn hv hres
+
+/-- **replace-around step, slice condition only** -/
+theorem replaceAround_valid' (S : Schema) (doc doc' : Node) (f t gf gt : Nat) (sl : Slice)
+    (ins : Nat) (st : Bool) (hd : Valid S doc)
+    (hp : SliceValid S (.replaceAround f t gf gt sl ins st))
+    (h : S.apply (.replaceAround f t gf gt sl ins st) doc = .ok doc') : Valid S doc' := by
+  obtain ⟨hv, hshape⟩ := hp
+  unfold Schema.apply at h
+  simp only at h
+  split at h
+  · simp at h
+  · split at h
+    · simp at h
+    · rename_i gap hgap
+      split at h
+      · simp at h
+      · rename_i hopen
+        have hgc : gap.openStart = 0 ∧ gap.openEnd = 0 := by
+          simpa [not_or] using hopen
+        split at h
+        · simp at h
+        · simp at h
+        · rename_i inserted hinst
+          exact replace_valid S doc doc' f t inserted hd
+            (insertAt_payload S doc gf gt ins sl gap inserted hd hv hshape hgap hgc hinst) h
+
+/-- **C01, with the payload condition on the slice alone**: for every schema, every valid document and every step of
+    any of the eight kinds whose slice is itself schema-valid (`SliceValid`), whatever `apply` returns is a valid
+    document.  (`apply_valid` above asks more of a replace-around step — validity of the slice *with the gap content in
+    place* — and is kept for callers that hold that; for the six other kinds the two conditions coincide.) -/
+theorem apply_valid' (S : Schema) (st : Step) (doc doc' : Node)
+    (hd : Valid S doc) (hp : SliceValid S st) (h : S.apply st doc = .ok doc') : Valid S doc' := by
+  cases st with
+  | replace f t sl s => exact replaceStep_valid S doc doc' f t sl s hd hp h
+  | replaceAround f t gf gt sl ins s => exact replaceAround_valid' S doc doc' f t gf gt sl ins s hd hp h
+  | addMark f t m => exact addMark_valid S doc doc' f t m hd hp h
+  | removeMark f t m => exact removeMark_valid S doc doc' f t m hd hp h
+  | addNodeMark pos m => exact addNodeMark_valid S doc doc' pos m hd h
+  | removeNodeMark pos m => exact removeNodeMark_valid S doc doc' pos m hd h
+  | attr pos name value => exact attr_valid S doc doc' pos name value hd h
+  | docAttr name value => exact docAttr_valid S doc doc' name value hd h
+
+/-- **replace-around step whose closed slice is valid except for the node that receives the gap** (`holeKids`: the
+    wrappers of `wrap`, the new node of `set_node_markup` — `<blockquote()>` is no valid node where `blockquote` wants
+    `block+`, so `SliceValid` fails for it; `PayloadValid` holds, but mentions the document): whatever `apply` returns
+    is a valid document.  A condition on the step alone; `SliceValid` with a closed slice is the special case
+    `holeKids_of_checkKids`. -/
+theorem replaceAround_valid_hole (S : Schema) (doc doc' : Node) (f t gf gt : Nat) (sl : Slice)
+    (ins : Nat) (st : Bool) (hd : Valid S doc) (h0 : sl.openStart = 0) (h1 : sl.openEnd = 0)
+    (hv : holeKids S sl.content ins = true)
+    (h : S.apply (.replaceAround f t gf gt sl ins st) doc = .ok doc') : Valid S doc' := by
+  unfold Schema.apply at h
+  simp only at h
+  split at h
+  · simp at h
+  · split at h
+    · simp at h
+    · rename_i gap hgap
+      split at h
+      · simp at h
+      · rename_i hopen
+        have hgc : gap.openStart = 0 ∧ gap.openEnd = 0 := by
+          simpa [not_or] using hopen
+        split at h
+        · simp at h
+        · simp at h
+        · rename_i inserted hinst
+          have hgv := slice_openValid S doc gf gt gap hd hgap
+          rw [hgc.1, hgc.2] at hgv
+          have hg : S.checkKids gap.content = true := by simpa [openValid, rightOpenValid] using hgv
+          exact replace_valid S doc doc' f t inserted hd
+            (insertAt_closed_holeValid S sl inserted ins gap.content hg h0 h1 hv hinst) h
+
+section Hole
+private def hnt (name : String) (dfa : Array DfaState) : NodeType :=
+  { name := name, isText := false, isInline := false, isLeaf := false, isAtom := false,
+    inlineContent := false, isolating := false, defining := false, code := false,
+    dfa := dfa, markSet := some [], attrs := [] }
+/-- doc "(para | quote)+", quote "para+", para "text*" -/
+private def hS : Schema :=
+  { nodes := #[
+      hnt "doc" #[⟨false, [(1, 1), (2, 1)]⟩, ⟨true, [(1, 1), (2, 1)]⟩],
+      { hnt "para" #[⟨true, [(3, 0)]⟩] with inlineContent := true },
+      hnt "quote" #[⟨false, [(1, 1)]⟩, ⟨true, [(1, 1)]⟩],
+      { hnt "text" #[⟨true, []⟩] with isText := true, isInline := true, isLeaf := true, isAtom := true }],
+    marks := #[], top := 0, textTy := 3 }
+/-- the slice of `wrap(…, [quote])`: the empty wrapper is no valid node, yet valid up to the node receiving the gap -/
+example : openValid hS 0 0 [.elem 2 [] [] []] = false ∧ holeKids hS [.elem 2 [] [] []] 1 = true := by
+  constructor
+  · simp only [openValid, rightOpenValid]; rfl
+  · simp [holeKids, Node.size, fsize, canonicalMarks, Schema.checkKids]
+end Hole
+/-! The former counterexample (finding C01-insert-inside-text): schema `doc: para+`, `para: image* text*`;
+    `doc(para(image), para("z"))`, `ReplaceAroundStep(0, 3, 1, 2, <para("ab")>, insert = 2)`: the slice is valid, the
+    gap content (`image`) would land between the two halves of `"ab"`.  The old test `para.can_replace(0, 0, [image])`
+    passed and the step returned `doc(para("a", image, "b"), para("z"))`, which `check()` rejects; the repaired
+    `insert_into` asks `para` about `"a" image "b"` and the step is refused ("Content does not fit in gap"). -/
+section InsideText
+private def itnt (name : String) (inl : Bool) (dfa : Array DfaState) : NodeType :=
+  { name := name, isText := false, isInline := inl, isLeaf := false, isAtom := false,
+    inlineContent := false, isolating := false, defining := false, code := false,
+    dfa := dfa, markSet := some [], attrs := [] }
+/-- doc "para+", para "image* text*", image, text -/
+private def itS : Schema :=
+  { nodes := #[
+      itnt "doc" false #[⟨false, [(1, 1)]⟩, ⟨true, [(1, 1)]⟩],
+      { itnt "para" false #[⟨true, [(2, 0), (3, 1)]⟩, ⟨true, [(3, 1)]⟩] with inlineContent := true },
+      { itnt "image" true #[⟨true, []⟩] with isLeaf := true, isAtom := true },
+      { itnt "text" true #[⟨true, []⟩] with isText := true, isLeaf := true, isAtom := true }],
+    marks := #[], top := 0, textTy := 3 }
+private def itDoc : Node := .elem 0 [] [] [.elem 1 [] [] [.leaf 2 [] []], .elem 1 [] [] [.text [122] []]]
+private def itSl : Slice := ⟨[.elem 1 [] [] [.text [97, 98] []]], 0, 0⟩
+
+example : Valid itS itDoc := by rfl
+example : SliceValid itS (.replaceAround 0 3 1 2 itSl 2 false) := by
+  refine ⟨by simp only [itSl, openValid, rightOpenValid]; rfl, .inl ⟨rfl, rfl⟩⟩
+/-- what the old test looked at, and what is built -/
+example : itS.canReplace 1 [.text [97, 98] []] 0 0 [.leaf 2 [] []] 0 1 = some true ∧
+    itS.validContent 1 [.text [97] [], .leaf 2 [] [], .text [98] []] = false := by decide
+/-- the step is refused -/
+theorem insideText_refused : itS.apply (.replaceAround 0 3 1 2 itSl 2 false) itDoc = .error .failed := by
+  have hs : itDoc.slice 1 2 = .ok ⟨[.leaf 2 [] []], 0, 0⟩ := by
+    simp [Node.slice, Node.kids, itDoc, sliceKids, inRange, sliceScan, sliceHere, fcut, depthAt, Node.size, fsize]
+  have hv : itS.validContent 1 [.text [97] [], .leaf 2 [] [], .text [98] []] = false := by decide
+  have hi : itSl.insertAt itS 2 [.leaf 2 [] []] = .ok none := by
+    simp [Slice.insertAt, itSl, insertInto, flatInsert, fcut, fcutLoop, cutText, splitOk, isHigh, isLow, fappend,
+      addNode, hv, Node.size, fsize]
+  simp [Schema.apply, hs, hi]
+end InsideText
+
+/-! An insertion point beyond the slice (second repair for C01).  Schema `doc: para+`, `para: img text*`;
+    `doc(para(img, "a"), para(img, "b"), para(img, "c"))`; `ReplaceAroundStep(0, 11, 4, 8, Slice(<para()>, 0, 1), insert = 2)`:
+    the slice is open at its end through the empty paragraph and has size 1; `insert = 2` lies in the open-end region.
+    `insert_into` put the gap content *behind* the open paragraph: the filled slice `<para(), para(img, "b")>` was then open
+    through the *second* paragraph, the empty one went into the document as a complete node without being looked at, and
+    the step returned `doc(para(), para(img, "b"))` — `check()`: "Invalid content for node para".  `from_json` accepts
+    such a step, so a peer can send it.  `Slice.insert_at` now refuses a position outside the slice. -/
+section InsertBeyond
+private def ibnt (name : String) (inl : Bool) (dfa : Array DfaState) : NodeType :=
+  { name := name, isText := false, isInline := inl, isLeaf := false, isAtom := false,
+    inlineContent := false, isolating := false, defining := false, code := false,
+    dfa := dfa, markSet := some [], attrs := [] }
+/-- doc "para+", para "img text*", img, text -/
+private def ibS : Schema :=
+  { nodes := #[
+      ibnt "doc" false #[⟨false, [(1, 1)]⟩, ⟨true, [(1, 1)]⟩],
+      { ibnt "para" false #[⟨false, [(2, 1)]⟩, ⟨true, [(3, 1)]⟩] with inlineContent := true },
+      { ibnt "img" true #[⟨true, []⟩] with isLeaf := true, isAtom := true },
+      { ibnt "text" true #[⟨true, []⟩] with isText := true, isLeaf := true, isAtom := true }],
+    marks := #[], top := 0, textTy := 3 }
+private def ibP (c : Nat) : Node := .elem 1 [] [] [.leaf 2 [] [], .text [c] []]
+private def ibDoc : Node := .elem 0 [] [] [ibP 97, ibP 98, ibP 99]
+private def ibSl : Slice := ⟨[.elem 1 [] [] []], 0, 1⟩
+
+example : Valid ibS ibDoc := by rfl
+/-- the slice is well formed, a valid payload (open through the empty paragraph) and has size 1 -/
+example : ibSl.wf = true ∧ openValid ibS ibSl.openStart ibSl.openEnd ibSl.content = true ∧ ibSl.size = 1 := by
+  refine ⟨by simp [ibSl, Slice.wf, spineL, spineR], ?_, by simp [ibSl, Slice.size]⟩
+  simp only [ibSl, openValid, rightOpenValid]; rfl
+/-- **the step with `insert > slice.size` is refused** ("Content does not fit in gap") -/
+theorem insertBeyond_refused : ibS.apply (.replaceAround 0 11 4 8 ibSl 2 false) ibDoc = .error .failed := by
+  have hs : ibDoc.slice 4 8 = .ok ⟨[ibP 98], 0, 0⟩ := by
+    simp [Node.slice, Node.kids, ibDoc, ibP, sliceKids, inRange, sliceScan, sliceHere, fcut, fcutLoop, depthAt,
+      Node.size, fsize]
+  have hi : ibSl.insertAt ibS 2 [ibP 98] = .ok none := insertAt_of_gt (by simp [ibSl, Slice.size])
+  simp [Schema.apply, hs, hi]
+end InsertBeyond
 
 /-- a slice cut from a valid document is a valid payload (so the quantifier is inhabited by every
     slice the correspondence run feeds to the model) -/
@@ -362,6 +573,67 @@ theorem apply_no_internal (S : Schema) (st : Step) (doc : Node)
   | attr pos name value => exact (nodeSteps_no_internal S doc pos hdoc).2.2 name value
   | docAttr name value => exact docAttr_no_internal S doc name value hdoc
 
+/-- the slices of the two replace kinds are well formed (`Slice.wf`: the open depths are available as element spines of
+    the content) — `StepWF` without its second half `insert ≤ slice.size` -/
+def SliceWF : Step → Bool
+  | .replace _ _ sl _ => sl.wf
+  | .replaceAround _ _ _ _ sl _ _ => sl.wf
+  | _ => true
+
+theorem sliceWF_of_stepWF (st : Step) (h : StepWF st = true) : SliceWF st = true := by
+  cases st <;> simp_all [StepWF, SliceWF]
+
+/-- a replace-around step that applies has its insertion point inside its slice (`Slice.insert_at` refuses it otherwise) -/
+theorem insert_le_of_apply (S : Schema) (doc doc' : Node) (f t gf gt : Nat) (sl : Slice) (ins : Nat) (st : Bool)
+    (h : S.apply (.replaceAround f t gf gt sl ins st) doc = .ok doc') : (ins : Int) ≤ sl.size := by
+  obtain ⟨gap, inserted, _, _, _, hinst, _⟩ := apply_replaceAround_parts S doc doc' f t gf gt sl ins st h
+  exact (insertAt_ok hinst).1
+
+/-- **replace-around step, `Slice.wf` only**: an insertion point beyond the slice is refused by `Slice.insert_at`
+    (before that repair it made the filled slice ill-formed and `replace` died with IndexError: E2 below) -/
+theorem replaceAround_no_internal' (S : Schema) (doc : Node) (f t gf gt : Nat) (sl : Slice)
+    (ins : Nat) (st : Bool) (hdoc : IsElem doc) (hwf : sl.wf = true) :
+    S.apply (.replaceAround f t gf gt sl ins st) doc ≠ .error .internal := by
+  by_cases hins : (ins : Int) ≤ sl.size
+  · exact replaceAround_no_internal S doc f t gf gt sl ins st hdoc
+      (by simp only [StepWF, Bool.and_eq_true, decide_eq_true_eq]; exact ⟨hwf, hins⟩)
+  · intro h
+    unfold Schema.apply at h
+    simp only at h
+    split at h
+    · rename_i e he
+      simp at h; subst h
+      split at he
+      · split at he
+        · simp at he
+        · simp at he
+        · split at he <;> simp at he
+      · simp at he
+    · split at h
+      · rename_i e he
+        simp at h; subst h
+        exact sliceKids_no_internal doc.kids gf gt he
+      · rename_i gap hgap
+        split at h
+        · simp at h
+        · rw [insertAt_of_gt (by omega)] at h
+          simp at h
+
+/-- **C01, second sentence, with `Slice.wf` as the only payload condition** (`SliceWF`): applying a step of any of the
+    eight kinds to an element node never ends in an internal error — whatever the positions and the insertion point -/
+theorem apply_no_internal' (S : Schema) (st : Step) (doc : Node)
+    (hdoc : IsElem doc) (hwf : SliceWF st = true) :
+    S.apply st doc ≠ .error .internal := by
+  cases st with
+  | replace f t sl s => exact replace_no_internal S doc f t sl s hdoc hwf
+  | replaceAround f t gf gt sl ins s => exact replaceAround_no_internal' S doc f t gf gt sl ins s hdoc hwf
+  | addMark f t m => exact addMark_no_internal S doc f t m hdoc
+  | removeMark f t m => exact removeMark_no_internal S doc f t m hdoc
+  | addNodeMark pos m => exact (nodeSteps_no_internal S doc pos hdoc).1 m
+  | removeNodeMark pos m => exact (nodeSteps_no_internal S doc pos hdoc).2.1 m
+  | attr pos name value => exact (nodeSteps_no_internal S doc pos hdoc).2.2 name value
+  | docAttr name value => exact docAttr_no_internal S doc name value hdoc
+
 /-- both sentences of C01 together: on a valid element document, a step with a valid, well-formed
     payload either is rejected (`failed` / `valueError`) or returns a valid document -/
 theorem apply_valid_or_rejected (S : Schema) (st : Step) (doc : Node)
@@ -376,11 +648,25 @@ theorem apply_valid_or_rejected (S : Schema) (st : Step) (doc : Node)
     | valueError => exact .inr (.inl rfl)
     | internal => exact absurd h (apply_no_internal S st doc hdoc hwf)
 
+/-- both sentences of C01 with the payload condition on the slice alone (`SliceValid`; `SliceWF` adds `Slice.wf`);
+    nothing is asked of the insertion point of a replace-around step -/
+theorem apply_valid_or_rejected' (S : Schema) (st : Step) (doc : Node)
+    (hd : Valid S doc) (hdoc : IsElem doc) (hp : SliceValid S st) (hwf : SliceWF st = true) :
+    S.apply st doc = .error .failed ∨ S.apply st doc = .error .valueError ∨
+      ∃ doc', S.apply st doc = .ok doc' ∧ Valid S doc' := by
+  cases h : S.apply st doc with
+  | ok doc' => exact .inr (.inr ⟨doc', rfl, apply_valid' S st doc doc' hd hp h⟩)
+  | error e =>
+    cases e with
+    | failed => exact .inl rfl
+    | valueError => exact .inr (.inl rfl)
+    | internal => exact absurd h (apply_no_internal' S st doc hdoc hwf)
+
 /-! ### The hypotheses are needed (and satisfiable)
 
-  Each hypothesis of `apply_no_internal`, dropped, admits an internal error — in the model (the
-  examples below) and in the code (`/repo`, checked by probe: every one of E1–E4 raises the class
-  noted).  Document: `doc(p("ab"), p("c"))` over `doc(para*), para(text*), text`. -/
+  Each hypothesis of `apply_no_internal'`, dropped, admits an internal error — in the model (the
+  examples below) and in the code (`/repo`, checked by probe: E1, E3, E4 raise the class noted; E2, the
+  `insert ≤ slice.size` half of `StepWF`, did until `Slice.insert_at` was repaired).  Document: `doc(p("ab"), p("c"))` over `doc(para*), para(text*), text`. -/
 section Necessity
 /-- doc(para*), para(text*), text -/
 private def tinyS : Schema :=
@@ -406,17 +692,18 @@ example : StepWF (.replace 1 4 ⟨[], 1, 0⟩ false) = false ∧
   simp [StepWF, Slice.wf, spineL, spineR, Schema.apply, Schema.fromReplace, Schema.replace, tinyDoc,
     replaceKids, inRange, depthAt, Except.map]
 
-/-- E2 (`insert ≤ slice.size`, replace-around): the slice `<p()>` open 0/1 is well-formed and has
-    size 1; inserting the gap at 2 puts it after the paragraph, the result `<p(), "b">` open 0/1 is
-    not well-formed.  Code: `ReplaceAroundStep(0, 3, 2, 3, Slice(<p()>, 0, 1), 2)` → IndexError
-    (with `insert = 1` it returns `doc(p("b"), p("c"))`). -/
+/-- E2 (`insert ≤ slice.size`, replace-around) — **no longer an internal error**: the slice `<p()>` open 0/1 is
+    well-formed and has size 1; inserting the gap at 2 would put it after the paragraph, and the result `<p(), "b">` open
+    0/1 is not well-formed: `ReplaceAroundStep(0, 3, 2, 3, Slice(<p()>, 0, 1), 2)` died with IndexError.  Since
+    `Slice.insert_at` refuses a position outside the slice (`pos > self.size`: second repair for C01, see
+    `insertBeyond_refused`) the step is refused; `apply_no_internal'` below needs `Slice.wf` only.
+    (With `insert = 1` the step returns `doc(p("b"), p("c"))`.) -/
 example : (Slice.mk [.elem 1 [] [] []] 0 1).wf = true ∧
     StepWF (.replaceAround 0 3 2 3 ⟨[.elem 1 [] [] []], 0, 1⟩ 2 false) = false ∧
-    tinyS.apply (.replaceAround 0 3 2 3 ⟨[.elem 1 [] [] []], 0, 1⟩ 2 false) tinyDoc = .error .internal := by
+    tinyS.apply (.replaceAround 0 3 2 3 ⟨[.elem 1 [] [] []], 0, 1⟩ 2 false) tinyDoc = .error .failed := by
   simp [StepWF, Slice.wf, Slice.size, spineL, spineR, Schema.apply, Schema.fromReplace, Schema.replace,
-    tinyDoc, Node.slice, Node.kids, sliceKids, sliceScan, sliceHere, Slice.insertAt, insertInto, flatInsert,
-    fcut, fcutLoop, cutText, splitOk, isHigh, isLow, fappend, addNode, replaceKids, inRange, depthAt,
-    Except.map]
+    tinyDoc, Node.slice, Node.kids, sliceKids, sliceScan, sliceHere, Slice.insertAt,
+    fcut, fcutLoop, cutText, splitOk, isHigh, isLow, inRange, depthAt]
 
 /-- E3 (`Slice.wf`, replace-around, with `insert ≤ size`): the slice `<"xy">` open 1/0.
     Code: `ReplaceAroundStep(1, 4, 2, 3, Slice(<"xy">, 1, 0), 0)` → IndexError. -/
